@@ -1233,3 +1233,47 @@ def reaching_value(cfg, name: str, use: int) -> ast.AST | None:
             found = val
     return found
 
+
+def subclass_missing_attrs(prog, base_q: str, sub_q: str) -> dict[str, list[tuple[FuncInfo, ast.Attribute]]]:
+    """Instance attributes that `base.__init__` creates and a subclass whose `__init__` does NOT chain to it never creates
+    (nor provides as method / property / class attribute), together with the places in the package that read them from an
+    object other than `self` - i.e. from "some function of the pipeline", which may be an instance of the subclass."""
+    base, sub = prog.classes[base_q], prog.classes[sub_q]
+    init_b, init_s = dict.get(base.methods, "__init__"), dict.get(sub.methods, "__init__")
+    if init_b is None or init_s is None:
+        return {}
+    chains = any(isinstance(c, ast.Call) and isinstance(c.func, ast.Attribute) and c.func.attr == "__init__" and ("super()" in norm(c.func.value) or norm(c.func.value) == base.name) for c in ast.walk(init_s.node))
+    if chains:
+        return {}
+
+    def assigned(fn: FuncInfo) -> set[str]:
+        out = set()
+        for n in ast.walk(fn.node):
+            if isinstance(n, (ast.Assign, ast.AnnAssign, ast.AugAssign)):
+                for t in (n.targets if isinstance(n, ast.Assign) else [n.target]):
+                    for x in ast.walk(t):
+                        if isinstance(x, ast.Attribute) and norm(x.value) == "self" and isinstance(x.ctx, ast.Store):
+                            out.add(x.attr)
+        return out
+
+    provided: set[str] = set()
+    for c in prog.mro(sub_q):
+        provided |= set(dict.keys(c.methods)) | set(c.class_assigns) | {k for k, v in c.fields.items() if v.value is not None}
+    # assignments made by helper methods that the subclass constructor calls on self
+    created = assigned(init_s)
+    for c in ast.walk(init_s.node):
+        if isinstance(c, ast.Call) and isinstance(c.func, ast.Attribute) and norm(c.func.value) == "self":
+            m = prog.find_method(sub_q, c.func.attr)
+            if m is not None:
+                created |= assigned(m)
+    missing = assigned(init_b) - created - provided
+    out: dict[str, list[tuple[FuncInfo, ast.Attribute]]] = {}
+    for attr in sorted(missing):
+        reads = []
+        for f in prog.functions.values():
+            for x in ast.walk(f.node):
+                if isinstance(x, ast.Attribute) and x.attr == attr and isinstance(x.ctx, ast.Load) and norm(x.value) != "self":
+                    reads.append((f, x))
+        out[attr] = reads
+    return out
+
